@@ -224,3 +224,18 @@ def make_knife_edge_contest(spec, ops, cut, contest, target_margin):
     mp.pop("unit_blocklist", None)
     mp.pop("postal_code_blocklist", None)
     return ops
+
+
+
+def make_live_frame_night(spec):
+    """The runner keeps ONE live feed frame for the whole night: every baseline unit has a row from the start (zeros until
+    its first delivery), deliveries overwrite rows in place, and every poll passes the same DataFrame object again."""
+    from nightsim.night import feed_row
+
+    zero = [dict(t=0.0, k="deliver", u=b["geographic_unit_fips"], ver=-1, row=feed_row(b, dict(pev=0, dem=0, gop=0, turnout=0))) for b in spec["world"]["baseline"]]
+    spec["ops"] = zero + spec["ops"]
+    for o in spec["ops"]:
+        if o["k"] == "poll":
+            o["inplace_feed"] = True
+    spec["live_frame"] = True
+    return spec
